@@ -208,6 +208,8 @@ def View.leaves : View → Bool
   | .either _ _ _ => false
   | .show _ _ _ => false
   | .forKeyed _ _ => false
+  | .scope _ _ _ => false
+  | .forRows _ _ _ => false
 
 theorem View.leaves_core : ∀ (v : View), v.leaves = true → v.core = true
   | .text _, _ => rfl
@@ -220,6 +222,8 @@ theorem View.leaves_core : ∀ (v : View), v.leaves = true → v.core = true
   | .either _ _ _, h => by simp [View.leaves] at h
   | .show _ _ _, h => by simp [View.leaves] at h
   | .forKeyed _ _, h => by simp [View.leaves] at h
+  | .scope _ _ _, h => by simp [View.leaves] at h
+  | .forRows _ _ _, h => by simp [View.leaves] at h
 
 section rerunLeaf
 variable {K : Nat} {st st' : St} {e : Nat} {w : Int}
@@ -322,6 +326,8 @@ theorem rerunIn_leaf : ∀ (v : View) (t : RState) (s0 : St), Good K st v t → 
         exact ⟨rfl, by simp only [Good]; exact ⟨h.1, hothers _ _ _ he h.2⟩, rfl⟩
   | either c a b _ _ => intro t s0 _ hl; simp [View.leaves] at hl
   | «show» c a b _ _ => intro t s0 _ hl; simp [View.leaves] at hl
+  | scope sid d kid _ => intro t s0 _ hl; simp [View.leaves] at hl
+  | forRows sel lists row _ => intro t s0 _ hl; simp [View.leaves] at hl
   | forKeyed sel lists => intro t s0 _ hl; simp [View.leaves] at hl
 
 end rerunLeaf
